@@ -6,6 +6,10 @@ props = [json.loads(l) for l in open(os.path.join(VERIF, 'properties.jsonl'))]
 ids = [p['id'] for p in props]
 
 CHECKS = {
+ 'C05': dict(engine='E1 enum', category='exploration', design_ref='3 C05',
+   technique='bounded-exhaustive enumeration of the facet lattice x boundary values x positions x six protocol families against a reference validity predicate',
+   text='Every single facet and selected facet pairs (ranges, fixed-width bounds, lengths, patterns, enumerations, nullability, occurrence) with values on, just inside and just outside every boundary - all values of the 8-bit (quick) and 16-bit (thorough) integer types +-16, occurrence counts 0..max+2 for min_occurs {0,1,2} x max_occurs {1,2,3,unbounded} - plus lexically ill-formed literals, in the positions argument / nested field / array member / XML attribute, through XmlDocument, Soap11, JsonDocument, YamlDocument, MessagePackDocument and HttpRpc with validator=soft. The reference predicate fixes one expected verdict per logical request, so agreement with it in all six families also settles the cross-protocol clause.',
+   note='vf/ref/validity.py is the reference semantics; total/fraction digits are not in the property\'s list and are not demanded; exponent decimals and case variants of booleans are not demanded to be refused (the repository\'s tests send them); combinations a family cannot spell (nil in a query string, a repeated JSON key) are skipped and counted.'),
  'C02': dict(engine='E1 enum', category='exploration', design_ref='3 C02',
    technique='bounded-exhaustive enumeration of (program, value, configuration) round trips against a convention-driven reference codec and stdlib json / PyYAML / msgpack',
    text='The C01 universe (atoms x positions, shapes x assignments) through JsonDocument, YamlDocument, MessagePackDocument (str- and bin-keyed requests) and MessagePackRpc x ignore_wrappers x complex_as {dict, list} x validator {None, soft}; 40 configurations taken in full. Requests are produced and responses decoded by third-party serialisers from plain Python documents built by an independent codec; integers to 10**30, 40-digit decimals and (thorough) every Unicode scalar value are in the alphabets.',
